@@ -707,7 +707,11 @@ class World(object):
     def importNode(self, doc, n, deep):
         if n.t in (DOC, DT): return Res.err({NOT_SUPPORTED})
         if n.t in (ENT, NOT): return None
-        return Res.ok(self._clone(n, deep or n.t == AT, doc, importing=True))
+        unspec = None
+        for x in (subtree(n) if deep else [n]):
+            if x.t == EL and len(set(a.name for a in x.attrs)) != len(x.attrs):
+                unspec = 'import of an element carrying two attributes of one nodeName (DOM Level 1 / namespace-aware mix)'
+        return Res.ok(self._clone(n, deep or n.t == AT, doc, importing=True), unspec)
 
 
 # =========================================================================================================
